@@ -15,15 +15,12 @@ package jet
 //@ pred RtOK(st *Runtime) := st != nil && st.scope != nil && st.escapeeWriter != nil && st.escapeeWriter.set != nil && st.escapeeWriter.set.gmx != nil && SetOK(st.escapeeWriter.set) && st.escapeeWriter.Writer != nil
 // RtX: what is known of the runtime when a construct is left by a panic: the scope chain is whatever the failing
 // construct left (scopes pushed without a defer are not popped), but never shorter than at entry
-//@ pred RtX(st *Runtime) := st != nil && st.escapeeWriter != nil && st.escapeeWriter.set != nil && st.escapeeWriter.set.gmx != nil && SetOK(st.escapeeWriter.set) && st.escapeeWriter.Writer != nil && st.scope != nil && Desc(st.scope, old(st.scope))
-// Desc(a, b): scope a is b or was pushed (transitively) on top of b. Scopes are never popped below the scope a
-// construct was entered with, also when it is left by a panic (deferred releases only undo pushes of their own function).
-//@ ufunc Desc(*scope, *scope) bool
-//@ axiom forallT(a, "*scope", Desc(a, a))
-//@ axiom forallT(a, "*scope", forallT(b, "*scope", Desc(a, b) && a != b ==> a != nil && a.parent != nil && Desc(a.parent, b)))
-//@ axiom forallT(a, "*scope", forallT(b, "*scope", a != nil && a.parent != nil && Desc(a.parent, b) ==> Desc(a, b)))
-//@ axiom forallT(a, "*scope", a != nil && a.parent != nil ==> Desc(a, a.parent))
-//@ axiom forallT(a, "*scope", forallT(b, "*scope", forallT(c, "*scope", Desc(a, b) && Desc(b, c) ==> Desc(a, c))))
+//@ pred RtX(st *Runtime) := st != nil && st.escapeeWriter != nil && st.escapeeWriter.set != nil && st.escapeeWriter.set.gmx != nil && SetOK(st.escapeeWriter.set) && st.escapeeWriter.Writer != nil && st.scope != nil && Depth(st.scope) >= Depth(old(st.scope))
+// Depth(s): length of the parent chain of scope s. Scopes are never popped below the depth a construct was entered
+// with, also when it is left by a panic (deferred releases only undo pushes of their own function), so a deferred
+// releaseScope never runs off the end of the chain.
+//@ ufunc Depth(*scope) int
+//@ axiom forallT(a, "*scope", a != nil ==> Depth(a) >= 0 && ite(a.parent == nil, Depth(a) == 0, Depth(a) == Depth(a.parent) + 1))
 // S(st): the interpreter state that enclosing constructs must leave as they found it.
 //@ pred SameS(st *Runtime) := st.scope == old(st.scope) && st.context == old(st.context) && st.content == old(st.content) && st.escapeeWriter.Writer == old(st.escapeeWriter.Writer)
 
